@@ -27,7 +27,7 @@ def encode_sequence(*encoded_pieces: bytes) -> bytes:
     return b"\x30" + encode_length(total_len) + b"".join(encoded_pieces)
 
 
-def remove_sequence(string: bytes) -> tuple[bytes, bytes]:
+def remove_sequence(string: bytes, use_broken_open_ssl_mechanism: bool = True) -> tuple[bytes, bytes]:
     if not string.startswith(b"\x30"):
         raise UnexpectedDER(
             "wanted sequence (0x30), got string length %d %r"
@@ -35,6 +35,9 @@ def remove_sequence(string: bytes) -> tuple[bytes, bytes]:
         )
     length, lengthlength = read_length(string[1:])
     endseq = 1 + lengthlength + length
+    if len(string) < endseq and not use_broken_open_ssl_mechanism:
+        # (the lenient mode mirrors OpenSSL-era consensus parsing, which ignores the sequence length)
+        raise UnexpectedDER("ran out of sequence bytes")
     return string[1 + lengthlength : endseq], string[endseq:]
 
 
@@ -88,7 +91,9 @@ def sigencode_der(r: int, s: int) -> bytes:
 
 def sigdecode_der(sig_der: bytes, use_broken_open_ssl_mechanism: bool = True) -> tuple[int, int]:
     # if use_broken_open_ssl_mechanism is true, this is a non-standard implementation
-    rs_strings, remainder = remove_sequence(sig_der)
+    rs_strings, remainder = remove_sequence(
+        sig_der, use_broken_open_ssl_mechanism=use_broken_open_ssl_mechanism
+    )
     if remainder and not use_broken_open_ssl_mechanism:
         raise UnexpectedDER("trailing bytes after DER signature")
     r, rest = remove_integer(
